@@ -137,6 +137,12 @@ func c19SessionSweep() []c19Session {
 	fn("redefined", "(progn (defun zqf (x) 'first) (defun zqf (x y) (list 'second x y)))", "(zqf 1 2)")
 	add("defun/calls-earlier", c19D("defun", "zqf1", []string{"(defun zqf1 (x) (* x 3))"}, "(zqf1 2)"),
 		c19D("defun", "zqf2", []string{"(defun zqf2 (y) (+ (zqf1 y) 1))"}, "(zqf2 2)"))
+	add("defun/forward-reference", c19D("defun", "zqfz", []string{"(defun zqfz (x) (* x 3))"}, "(zqfz 2)"),
+		c19D("defun", "zqfa", []string{"(defun zqfa (y) (+ (zqfz y) 1))"}, "(zqfa 2)"))
+	add("defun/forward-reference-nested", c19D("defun", "zqfz", []string{"(defun zqfz (x) (- 24 x))"}, "(zqfz 2)"),
+		c19D("defun", "zqfa", []string{"(defun zqfa (y) (+ 1 (zqfz (zqfz y))))"}, "(zqfa 5)"))
+	add("defun/calls-macro", c19D("defmacro", "zqm", []string{"(defmacro zqm (a) `(* 2 ,a))"}, "(zqm 4)"),
+		c19D("defun", "zqf", []string{"(defun zqf (y) (+ 1 (zqm y)))"}, "(zqf 5)"))
 	add("defun/uses-variable", c19D("defvar", "zqv", []string{"(defvar zqv 10)"}, "zqv"),
 		c19D("defun", "zqf", []string{"(defun zqf (y) (+ zqv y))"}, "(zqf 2)"))
 	one("defmacro", "backquote", "zqm", "(defmacro zqm (a b) `(+ ,a (* 2 ,b)))", "(zqm 1 2)", "(macroexpand-1 '(zqm x y))")
@@ -164,6 +170,9 @@ func c19SessionSweep() []c19Session {
 	fl("method-daemons", []string{"(defflavor zqfl ((a 1) (log nil)) () :gettable-instance-variables)", "(defmethod (zqfl :bump) (n) (setq a (+ a n)))",
 		"(defmethod (zqfl :before :bump) (n) (setq log (cons (list 'before n) log)))", "(defmethod (zqfl :after :bump) (n) (setq log (cons 'after log)))"},
 		"(let ((i (make-instance 'zqfl))) (send i :bump 2) (list (send i :a) (send i :log)))")
+	add("defflavor/method-calls-function", c19D("defun", "zqf", []string{"(defun zqf (x) (* x 3))"}, "(zqf 2)"),
+		c19D("defflavor", "zqfl", []string{"(defflavor zqfl ((a 1)) () :gettable-instance-variables)", "(defmethod (zqfl :triple) (n) (zqf (+ a n)))"},
+			"(send (make-instance 'zqfl) :triple 3)"))
 	add("defflavor/inherit", c19Def{Kind: "defflavor", Name: "zqfa", Forms: []string{"(defflavor zqfa ((a 1)) () :gettable-instance-variables :inittable-instance-variables)"}},
 		c19Def{Kind: "defflavor", Name: "zqfb", Deps: []string{"zqfa"}, Forms: []string{"(defflavor zqfb ((b 2)) (zqfa) :gettable-instance-variables)"},
 			Probes: []string{"(let ((i (make-instance 'zqfb :a 5))) (list (send i :a) (send i :b)))"}})
@@ -236,18 +245,21 @@ func c19SessionSweep() []c19Session {
 // composite sessions
 
 type c19SessGen struct {
-	r      *lib.Rng
-	listed func(cell string) bool
-	n      int
-	fns    []c19Def // integer functions defined so far
-	ivars  []string // integer variables
-	flavs  []c19Def
-	defs   []c19Def
+	noCalls bool // (state) no calls of user functions in the expression being generated
+	r       *lib.Rng
+	listed  func(cell string) bool
+	n       int
+	fns     []c19Def // integer functions defined so far
+	ivars   []string // integer variables
+	flavs   []c19Def
+	defs    []c19Def
 }
 
 func (g *c19SessGen) name(prefix string) string {
 	g.n++
-	return fmt.Sprintf("zq%s%d", prefix, g.n)
+	// zero padded: the snapshot writes functions sorted by name, a callee defined earlier must also
+	// sort earlier (forward references are a listed finding)
+	return fmt.Sprintf("zq%s%03d", prefix, g.n)
 }
 
 // intExpr: an integer valued expression over the integer variables in scope
@@ -284,7 +296,7 @@ func (g *c19SessGen) intExpr(vars []string, depth int) string {
 		v, i := g.name("t"), g.name("i")
 		return fmt.Sprintf("(let ((%s 0)) (dotimes (%s 4) (setq %s (+ %s %s %s))) %s)", v, i, v, v, i, leaf(), v)
 	case 8:
-		if len(g.fns) > 0 {
+		if len(g.fns) > 0 && !g.noCalls {
 			f := g.fns[r.Intn(len(g.fns))]
 			args := make([]string, f.Arity)
 			for i := range args {
@@ -435,7 +447,10 @@ func (g *c19SessGen) addDef() {
 		d.Probes = []string{fmt.Sprintf("(let ((i (make-instance '%s))) (send i :%s))", name, iv), fmt.Sprintf("(let ((i (make-instance '%s :%s 77))) (send i :set-%s (+ 1 (send i :%s))) (send i :%s))", name, iv, iv, iv, iv)}
 		if !g.listed("defflavor/method") && r.Chance(60) {
 			m := g.name("msg")
+			// flavors and their methods are written before the functions: no calls of user functions
+			g.noCalls = g.listed("defflavor/method-calls-function")
 			d.Forms = append(d.Forms, fmt.Sprintf("(defmethod (%s :%s) (n) %s)", name, m, g.intExpr([]string{"n", iv}, 2)))
+			g.noCalls = false
 			d.Probes = append(d.Probes, fmt.Sprintf("(send (make-instance '%s) :%s 4)", name, m))
 		}
 		g.flavs = append(g.flavs, d)
@@ -618,7 +633,7 @@ func c19RunSession(dir string, sess *c19Session) (res c19SessResult) {
 	}
 	if r2.Load == nil || !r2.Load.Ok {
 		// attribute to the first failing top-level form
-		res.Aspect, res.Detail = "unreadable", "?"
+		res.Aspect, res.Detail = "unreadable", "whole-file" // no single form fails when read and evaluated one by one
 		res.Expected = "(load \"snapshot\") succeeds"
 		if r2.Load != nil {
 			res.Observed = "load: " + r2.Load.Class + ": " + r2.Load.Msg
@@ -718,6 +733,15 @@ func c19RunSessions(c *lib.Ctx) {
 	nRandom := c.Scale(60, 600)
 	for i := 0; i < nRandom; i++ {
 		sessions = append(sessions, c19RandSession(c.Rng, listed))
+	}
+	// baseline gate: when the snapshot of an EMPTY session cannot be reloaded every other session
+	// fails for that same reason; report the one cause only
+	base0 := c19RunSession(filepath.Join(c.OutDir, "sessions-baseline"), &sessions[0])
+	if base0.Invalid == "" && base0.Aspect != "" {
+		c.Ev.Case("s:empty", false)
+		c.Ev.Coverage["session_baseline_broken"] = base0.Aspect + ": " + base0.Observed
+		c.Report(c19SessionSignature(&base0), true, c19SessionReplay(&base0))
+		return
 	}
 	results := make([]c19SessResult, len(sessions))
 	base := filepath.Join(c.OutDir, "sessions")
